@@ -54,6 +54,7 @@ func c02(c *Ctx) {
 	c02SaveFaultProbe(c)
 	c02ConcurrentProbe(c)
 	c02DuplicateNodeIDProbe(c)
+	c02RestartFamily(c)
 	c02Campaign(c)
 }
 
@@ -264,6 +265,7 @@ type c02State struct {
 	honestDR map[common.Hash]string // parent hash -> deputy root (hex) of an honest child
 	txSeq    int
 	chainTxs types.Transactions // txs already packed in accepted honest blocks (for replays)
+	binfo    map[common.Hash]*c02BlockInfo
 }
 
 func (s *c02State) id(kind string, b []byte) int {
@@ -381,17 +383,27 @@ func (s *c02State) facts(b *types.Block, now int64, ex c02Exec) string {
 		}
 		add("txs", strings.Join(parts, ","))
 	}
+	// `anc`: the model is fed the harness' OWN walk over the ancestors in the store (ancOwn), not the guard's
+	// answer; the real TxGuard.ExistTxs is only asked for a panic and cross-checked (oracle c02/fed-fact/anc).
 	anc := "0"
 	if err == nil {
-		anc = Safe(func() string {
+		own, replayed := s.ancOwn(b)
+		if own {
+			anc = "1"
+		}
+		guard := Safe(func() string {
 			if n.BC.TxGuard().ExistTxs(h.ParentHash, b.Txs) {
 				return "1"
 			}
 			return "0"
 		})
-	}
-	if anc == "panic" {
-		anc = "p" // the model's onAncestor = none
+		if guard == "panic" {
+			anc = "p" // the model's onAncestor = none
+		} else if own && guard == "0" {
+			// an ancestor at most 1800 s older than the block is never evicted from the guard (its time base is
+			// stable time - 1800 and the block is not older than the stable block): the guard must know it
+			s.c.Fail("c02/fed-fact/anc", fmt.Sprintf("TxGuard.ExistTxs says false, but tx %s of the block sits in an ancestor (found by walking the parent links in the store) at most 1800 s older than the block", replayed.Hex()), nil)
+		}
 	}
 	add("anc", anc)
 	switch ex.kind {
@@ -571,10 +583,8 @@ func (s *c02State) spec(b *types.Block, now int64, ex c02Exec) string {
 			}
 		}
 	}
-	for _, old := range s.chainTxs {
-		if seen[old.Hash()] && s.onAncestorPath(parent, old) {
-			return "tx-replay"
-		}
+	if own, _ := s.ancOwn(b); own {
+		return "tx-replay"
 	}
 	if len(b.ChangeLogs) > 0 && b.ChangeLogs.MerkleRootSha() != h.LogRoot {
 		return "body-change-logs"
@@ -739,6 +749,9 @@ func (s *c02State) runCase(m *types.Block, label string, honest bool, probe type
 			c.Fail("c02/ignored-without-reason", fmt.Sprintf("block neither stored nor below the stable height was ignored [%s]", label), replay)
 		}
 	case "ok":
+		if specClause == "tx-replay" && strings.HasPrefix(label, "restart:") {
+			c.Fail("c02/accepted-invalid/replayed-tx-after-restart", fmt.Sprintf("after a restart on the same database a block replaying a transaction of its own ancestor chain was accepted [%s]; head before=%s after=%s, balances at head before=%s after=%s", label, before["current"], after["current"], before["balances-at-head"], after["balances-at-head"]), replay)
+		}
 		if specClause != "" {
 			c.Fail("c02/accepted-invalid/"+specClause, fmt.Sprintf("block violating the clause %q was accepted [%s]", specClause, label), replay)
 		}
